@@ -57,7 +57,7 @@ def gen():
         op = st.one_of(upd, upd, upd, upd, upd, pair, st.tuples(st.just("repeat"), st.integers(0, 20)), st.tuples(st.just("repeat"), st.integers(0, 20)), st.tuples(st.just("extract"), st.integers(0, 20)),
                        st.tuples(st.just("logprob"), st.integers(0, 20))).map(list)
         return {"spec": spec, "ops": draw(st.lists(op, min_size=4, max_size=12)), "pending": draw(st.booleans()), "clash": draw(st.booleans()),
-                "dep_bij": draw(st.booleans()), "int_var": draw(st.booleans()), "alias": draw(st.integers(0, 3)) == 0, "hi": [draw(st.sampled_from([1.5, 2.5, 3.0])) for _ in range(4)]}
+                "dep_bij": draw(st.booleans()), "int_var": draw(st.booleans()), "user_lp": draw(st.integers(0, 3)) == 0, "alias": draw(st.integers(0, 3)) == 0, "hi": [draw(st.sampled_from([1.5, 2.5, 3.0])) for _ in range(4)]}
 
     return g()
 
@@ -105,6 +105,11 @@ def oracle(case):
             dose = lsl.Var(np.array([1, 2, 3], dtype=np.int32), name="dose")
             eff = lsl.Var(lsl.Calc(lambda d: jnp.sum(jnp.asarray(d, dtype=jnp.float32)) / 4.0, dose), name="dose_effect")
             gb.add(lsl.obs(np.float32(0.2), lsl.Dist(tfd.Normal, loc=eff, scale=np.float32(1.0)), name="wd"))
+        if case.get("user_lp"):
+            # user-supplied joint density (GraphBuilder.log_prob_node): a tempered sum of the generated variables' log-densities
+            dns = [v.dist_node for v in lvars if v.dist_node is not None]
+            if dns:
+                gb.log_prob_node = lsl.Calc(lambda *lps: 0.5 * sum(jnp.sum(lp) for lp in lps), *dns, _name="tempered_lp")
         return gb.build_model()
 
     user = build_once()
@@ -165,7 +170,7 @@ def oracle(case):
             pos["dose"] = jnp.asarray(np.array([0.5, 1.5, 2.5], dtype=np.float32) + np.float32(zs[0][0]))
         return pos
 
-    def run_update(pos, sidx, mode, tag):
+    def run_update(pos, sidx, mode, tag, pool_len=None):
         state = pool[sidx]
         snap = state_values(state)
         leaves_before = [id(x) for x in jax.tree_util.tree_leaves(state)]
@@ -182,8 +187,9 @@ def oracle(case):
             outs = [({k: v[b] for k, v in bpos.items()}, state, jax.tree_util.tree_map(lambda x: x[b], bout)) for b in range(B)]
             out = outs[0][2]
         else:
-            B = min(2, len(pool))
-            idxs = [(sidx + b) % len(pool) for b in range(B)]
+            npool = pool_len or len(pool)          # (a repeat re-issues exactly the same batch: same states, same batch size)
+            B = min(2, npool)
+            idxs = [(sidx + b) % npool for b in range(B)]
             bstate = jax.tree_util.tree_map(lambda *xs: jnp.stack([jnp.asarray(x) for x in xs]), *[pool[i] for i in idxs])
             bpos = {k: jnp.stack([v + 0.125 * b for b in range(B)]) for k, v in pos.items()}
             bout = jax.vmap(iface.update_state, in_axes=(0, 0))(bpos, bstate)
@@ -216,7 +222,7 @@ def oracle(case):
             sidx %= len(pool)
             pos = make_position(zs, style, mask)
             out = run_update(pos, sidx, mode, tag)
-            calls.append((pos, sidx, mode, out))
+            calls.append((pos, sidx, mode, out, len(pool)))
             pool.append(materialise(out))
             n_updates += 1
             if mode == "eager" and any(m != "eager" for m in modes_seen):
@@ -229,13 +235,13 @@ def oracle(case):
             p1, p2 = make_position(zs1, "var", m1), make_position(zs2, "var", m2)
             o1 = run_update(p1, sidx, "eager", "pair-first:")
             o2 = run_update(p2, sidx, "eager", "pair-second:")
-            calls.append((p2, sidx, "eager", o2))
+            calls.append((p2, sidx, "eager", o2, len(pool)))
             pool.append(materialise(o2))
             n_updates += 2
             modes_seen += ["eager", "eager"]
         elif op[0] == "repeat" and calls:
-            pos, sidx, mode, first = calls[op[1] % len(calls)]
-            again = run_update(pos, sidx, mode, "repeat:")
+            pos, sidx, mode, first, npool0 = calls[op[1] % len(calls)]
+            again = run_update(pos, sidx, mode, "repeat:", pool_len=npool0)
             require(tree_equal_bits(strip(first), strip(again)), "result-depends-on-earlier-calls", lambda: f"step {step}: repeating call {op[1] % len(calls)} ({mode}) gave a different state; {det()}")
             had_repeat = True
         elif op[0] == "extract":
